@@ -7,6 +7,8 @@ import (
 	"compress/gzip"
 	"compress/zlib"
 	"context"
+	b64pkg "encoding/base64"
+	"encoding/json"
 	"fmt"
 	"io"
 	"net"
@@ -132,7 +134,7 @@ func (w *World) observeServer() {
 		w.socks[s.Id()] = s
 		w.order = append(w.order, s.Id())
 		w.mu.Unlock()
-		w.rec.Log("srv.connection", append(w.snap(s), "proto", s.Protocol(), "clients", w.Srv.Clients().Len(), "count", int64(w.Srv.ClientsCount()))...)
+		w.rec.Log("srv.connection", append(w.snap(s), "proto", s.Protocol(), "clients", w.Srv.Clients().Len(), "count", int64(w.Srv.ClientsCount()), "idok", reURLSafe.MatchString(s.Id()))...)
 		w.observeSocket(s)
 		if h := w.hooks["connection"]; h != nil {
 			h(s.Id())
@@ -232,7 +234,7 @@ func (w *World) observeSocket(s engine.Socket) {
 func MsgPayload(prefix string, id int, size int, bin bool, class int) []byte {
 	head := fmt.Sprintf("%s%d|", prefix, id)
 	b := []byte(head)
-	alpha := []string{"a", "é", "€", "😀", "\n", "\\n", ":", "7", "\x1e", "\"", "<", ">", " ", "&", " ", "\\"}
+	alpha := []string{"a", "é", "€", "😀", "\n", "\\n", ":", "7", "\"", "<", ">", " ", "&", " ", "\\"}
 	i := 0
 	for len(b) < size {
 		if bin {
@@ -302,6 +304,9 @@ func (w *World) Sock(sid string) engine.Socket { w.mu.Lock(); defer w.mu.Unlock(
 // Send calls socket.Send with a fresh message; returns its id.
 func (w *World) Send(sid string, o SendOpt) int {
 	s := w.Sock(sid)
+	if s == nil { // the application has not been handed this session (yet)
+		return 0
+	}
 	w.mu.Lock()
 	w.midN++
 	id := w.midN
@@ -348,6 +353,9 @@ func (w *World) Send(sid string, o SendOpt) int {
 
 func (w *World) Close(sid string, discard bool) {
 	s := w.Sock(sid)
+	if s == nil {
+		return
+	}
 	w.rec.Log("app.close.call", append(w.snap(s), "discard", discard)...)
 	s.Close(discard)
 	w.rec.Log("app.close.ret", w.snap(s)...)
@@ -357,6 +365,20 @@ func (w *World) ServerClose() {
 	w.rec.Log("app.srvclose.call")
 	w.Srv.Close()
 	w.rec.Log("app.srvclose.ret")
+}
+
+// Cause records that the scenario is about to do something that may legitimately end session sid
+// (class: peer | error | parse | app).
+func (w *World) Cause(sid, class string) { w.rec.Log("cause", "sid", sid, "class", class) }
+
+// Expect states an expectation at a quiescent point (what: drained | delivered | open | closed | upgraded | notupgrading).
+func (w *World) Expect(sid, what string) {
+	synctest.Wait()
+	upg := false
+	if s := w.Sock(sid); s != nil {
+		upg = s.Upgrading()
+	}
+	w.rec.Log("expect", "sid", sid, "what", what, "upg", upg)
 }
 
 // Snapshot logs registry and per-socket state at a quiescent instant.
@@ -391,7 +413,7 @@ func (w *World) Snapshot() {
 	}
 	w.mu.Unlock()
 	w.rec.Log("snapshot", "clients", keys, "count", int64(w.Srv.ClientsCount()), "socks", states, "live", live, "reach", reach,
-		"handlers", pend, "goroutines", len(GoroutinesInBubble()))
+		"handlers", pend, "goroutines", len(GoroutinesInBubble()), "drained", false, "parked", w.g.ParkedTotal())
 }
 
 // ---------------------------------------------------------------- HTTP client side
@@ -616,6 +638,18 @@ func (w *World) logResp(r *Req) {
 		}
 		kv = append(kv, "text", s, "pk", []any{})
 	}
+	code1 := -1
+	if code >= 400 {
+		var cm struct {
+			Code    *int   `json:"code"`
+			Message string `json:"message"`
+		}
+		if json.Unmarshal(body, &cm) == nil && cm.Code != nil {
+			code1 = *cm.Code
+			kv = append(kv, "message", cm.Message)
+		}
+	}
+	kv = append(kv, "code", code1, "okAck", code == 200 && string(body) == "ok")
 	kv = append(kv, "sid", sid, "setcookie", hdr.Values("Set-Cookie"), "acao", hdr.Get("Access-Control-Allow-Origin"),
 		"vary", hdr.Get("Vary"), "acac", hdr.Get("Access-Control-Allow-Credentials"))
 	w.rec.Log("cli.resp", kv...)
@@ -773,7 +807,16 @@ func (w *World) Post(s *Sess, ps []Pkt, o ReqOpt) *Req {
 	if o.CType == "" {
 		o.CType = ct
 	}
-	w.rec.Log("cli.post", "sid", s.Sid, "pk", w.descClientPkts(ps))
+	enc := "v4"
+	switch {
+	case s.JSONP:
+		enc = "jsonp"
+	case s.Proto == 3 && ct == "application/octet-stream":
+		enc = "v3bin"
+	case s.Proto == 3:
+		enc = "v3text"
+	}
+	w.rec.Log("cli.post", "sid", s.Sid, "pk", w.descClientPkts(ps), "enc", enc)
 	return w.StartReq("post", s, o)
 }
 
@@ -855,16 +898,17 @@ type WSClient struct {
 	Err    string
 	Status int
 	wmu    sync.Mutex
+	OnPkt  func(*WSClient, Pkt) // called from the read loop after the packet was logged
 }
 
 // DialWS opens a WebSocket (handshake when s.Sid == "", upgrade candidate otherwise).
-func (w *World) DialWS(s *Sess, extraQuery string, hdr http.Header) *WSClient {
+func (w *World) DialWS(s *Sess, extraQuery string, hdr http.Header, onPkt func(*WSClient, Pkt)) *WSClient {
 	w.mu.Lock()
 	w.connN++
 	id := w.connN
 	w.mu.Unlock()
 	cc, sc := memPipe()
-	c := &WSClient{ID: id, Kind: "websocket", Sess: s, raw: cc, w: w}
+	c := &WSClient{ID: id, Kind: "websocket", Sess: s, raw: cc, w: w, OnPkt: onPkt}
 	w.mu.Lock()
 	w.conns[id] = c
 	w.mu.Unlock()
@@ -982,6 +1026,9 @@ func (c *WSClient) readLoop() {
 			c.Sess.Sid = openSid(p.Data)
 		}
 		w.rec.Log("cli.ws.recv", "cid", c.ID, "sid", c.Sess.Sid, "pk", w.descPkts([]Pkt{p})[0])
+		if c.OnPkt != nil {
+			c.OnPkt(c, p)
+		}
 	}
 }
 
@@ -1055,10 +1102,11 @@ func b64(b []byte) string {
 
 // Finish tears the world down so the bubble can exit: close everything, let timers run out.
 func (w *World) Finish() {
+	w.g.StopParking()
 	w.g.ReleaseAll()
 	synctest.Wait()
 	w.Snapshot()
-	w.Srv.Close()
+	w.ServerClose()
 	synctest.Wait()
 	w.mu.Lock()
 	conns := make([]*WSClient, 0, len(w.conns))
@@ -1088,5 +1136,34 @@ func (w *World) Finish() {
 	}
 	time.Sleep(2 * time.Minute) // past closeTimeout, upgradeTimeout and heartbeat deadlines
 	synctest.Wait()
-	w.rec.Log("finish", "goroutines", len(GoroutinesInBubble()))
+	var left []string
+	for _, g := range GoroutinesInBubble() {
+		if strings.Contains(g, "synctest.Run") || strings.Contains(g, "testingSynctestTest") {
+			continue
+		}
+		fr := ""
+		for _, ln := range strings.Split(g, "\n")[1:] {
+			if !strings.HasPrefix(ln, "\t") && (strings.Contains(ln, "engine.io") || strings.Contains(ln, "harness") || strings.Contains(ln, "websocket")) {
+				if i := strings.Index(ln, "("); i > 0 {
+					ln = ln[:i]
+				}
+				fr += ln[strings.LastIndex(ln, "/")+1:] + " < "
+			}
+		}
+		left = append(left, firstLine(g)+" "+fr)
+	}
+	kinds := make([]string, len(left))
+	for i, g := range left {
+		kinds[i] = "other"
+		if strings.Contains(g, "utils.SetInterval.func") {
+			kinds[i] = "interval"
+		} else if strings.Contains(g, "utils.SetTimeout.func") {
+			kinds[i] = "timeout"
+		}
+	}
+	w.rec.Log("finish", "goroutines", len(left), "left", kinds, "stacks", left)
 }
+
+func stdB64(b []byte) string { return base64Std.EncodeToString(b) }
+
+var base64Std = b64pkg.StdEncoding
